@@ -56,9 +56,10 @@ VARIABLES users,     \* account name -> [pw, owner]
           tasks,     \* set of background tasks
           nextId, nreq,
           foreignRead, foreignEffect, wrongResult,  \* ghost: set of causes observed so far
+          lostResult, \* ghost: why the result of an accepted task never reached a document
           stale      \* ghost: principals whose cookie names an account that another request has vacated (deleted / renamed) since
 
-vars == <<users, probs, running, cookie, req, tasks, nextId, nreq, foreignRead, foreignEffect, wrongResult, stale>>
+vars == <<users, probs, running, cookie, req, tasks, nextId, nreq, foreignRead, foreignEffect, wrongResult, lostResult, stale>>
 
 Idle == [op |-> "idle", status |-> 0]
 NeedsLogin == {"logout", "info", "update", "delacct", "solve", "get", "list", "delprob"}
@@ -66,7 +67,7 @@ NoRes == [s \in Strategies |-> "None"]
 
 Init == /\ users = [n \in {} |-> 0] /\ probs = {} /\ running = {} /\ cookie = [p \in Principals |-> NoUser]
         /\ req = [p \in Principals |-> Idle] /\ tasks = {} /\ nextId = 1 /\ nreq = 0
-        /\ foreignRead = {} /\ foreignEffect = {} /\ wrongResult = {} /\ stale = {}
+        /\ foreignRead = {} /\ foreignEffect = {} /\ wrongResult = {} /\ lostResult = {} /\ stale = {}
 
 Exists(n) == n \in DOMAIN users
 Find(pn, u) == { d \in probs : d.name = pn /\ d.user = u }
@@ -96,7 +97,7 @@ ReadCause(p, d) == Cause(p, d)
 (******************************* requests **********************************)
 Start(p, r) == /\ req[p].op = "idle" /\ nreq < MaxReq /\ nreq' = nreq + 1
                /\ req' = [req EXCEPT ![p] = r @@ [pc |-> 1, me |-> cookie[p]]]
-               /\ UNCHANGED <<users, probs, running, cookie, tasks, nextId, foreignRead, foreignEffect, wrongResult, stale>>
+               /\ UNCHANGED <<users, probs, running, cookie, tasks, nextId, foreignRead, foreignEffect, wrongResult, lostResult, stale>>
 
 NewRequest(p) ==
   \/ \E n \in Accounts : Start(p, [op |-> "register", n |-> n, pw |-> Pw(p)])
@@ -116,7 +117,7 @@ Unch(S) == UNCHANGED S
 Step(p) ==
   LET r == req[p] IN
   /\ r.op # "idle"
-  /\ nreq' = nreq
+  /\ nreq' = nreq /\ lostResult' = lostResult
   /\ CASE r.op \in NeedsLogin /\ r.me = NoUser ->                \* no identity: 401 without touching the database
             /\ Fin(p, 401)
             /\ Unch(<<users, probs, running, cookie, tasks, nextId, foreignRead, foreignEffect, wrongResult>>)
@@ -238,13 +239,13 @@ TaskStep(t) ==
      CASE t.pc = 1 ->                                            \* running.insert
             /\ running' = running \cup {ri}
             /\ tasks' = (tasks \ {t}) \cup {[t EXCEPT !.pc = 2]}
-            /\ Unch(<<users, probs, cookie, req, nextId, foreignRead, foreignEffect, wrongResult, stale>>)
+            /\ Unch(<<users, probs, cookie, req, nextId, foreignRead, foreignEffect, wrongResult, lostResult, stale>>)
        [] t.pc = 2 ->                                            \* compute; a panic skips the deregistration
             /\ LET out == IF t.code \in BadCodes \cup BoomCodes THEN "Error" ELSE t.code
                    panicked == t.code \in BoomCodes IN
                /\ running' = IF panicked THEN running ELSE running \ {ri}
                /\ tasks' = (tasks \ {t}) \cup {[t EXCEPT !.pc = 3, !.out = out]}
-            /\ Unch(<<users, probs, cookie, req, nextId, foreignRead, foreignEffect, wrongResult, stale>>)
+            /\ Unch(<<users, probs, cookie, req, nextId, foreignRead, foreignEffect, wrongResult, lostResult, stale>>)
        [] t.pc = 3 ->                                            \* continuation: [deregister;] update_one {name, username}
             /\ running' = IF FixedF8 THEN running \ {ri} ELSE running
             /\ LET hit == Find(t.name, t.user) IN
@@ -260,6 +261,12 @@ TaskStep(t) ==
                /\ foreignEffect' = foreignEffect \cup UNION { IF d.owner = t.owner THEN {} ELSE IF d.id # t.doc THEN {"stale-task-write"}
                                                               ELSE IF t.via # "" THEN {t.via}
                                                               ELSE IF d.taint # "" THEN {d.taint} ELSE {"unexplained"} : d \in hit }
+               \* the write matched nothing: the result is lost - because the problem is gone, or because it moved to another
+               \* account name while the task was running (the third race shape: rename during a running task)
+               /\ lostResult' = lostResult \cup (IF hit # {} THEN {}
+                                                  ELSE IF ~\E d \in probs : d.id = t.doc THEN {"problem-deleted"}
+                                                  ELSE IF \E d \in probs : d.id = t.doc /\ d.user # t.user THEN {"renamed-during-task"}
+                                                  ELSE {"unexplained"})
             /\ tasks' = tasks \ {t}
             /\ Unch(<<users, cookie, req, nextId, foreignRead, stale>>)
 
@@ -275,6 +282,10 @@ NoUnexplainedEffect == "unexplained" \notin foreignEffect
 ResultsMatchCode == \A d \in probs : d.taint = "" => /\ d.adfOf \in {"None", "Error", d.code}
                                                        /\ \A s \in Strategies : d.res[s] \in {"None", "Error", d.code}
 NoUnexplainedResult == "unexplained" \notin wrongResult
+\* C16 ("eventually stored"): an accepted task's result is lost only when its problem was deleted or renamed away meanwhile
+NoUnexplainedLoss == "unexplained" \notin lostResult
+\* ... and without those two, never: expected to FAIL where renames exist (documents the third race shape)
+NoLostResult == "renamed-during-task" \notin lostResult
 \* C16: unparseable code never has a diagram or an answer
 ErrorNotEmpty == \A d \in probs : d.code \in BadCodes \cup BoomCodes =>
                     (d.adfOf \in {"None", "Error"} \/ d.taint # "")
